@@ -28,6 +28,7 @@ import (
 	"crypto"
 	stded "crypto/ed25519"
 	"fmt"
+	"io"
 	"math/big"
 	"strings"
 	"sync"
@@ -69,6 +70,12 @@ func c01Flags(m int) (ref.EdFlags, *ed25519.VerifyOptions) {
 
 var c01FlagNames = []string{"SmallOrderA", "SmallOrderR", "NonCanonicalA", "NonCanonicalR", "Cofactorless"}
 
+var c01NoiseKey = ed25519.NewKeyFromSeed(bytes.Repeat([]byte{0x42}, 32))
+
+type c01FailingReader struct{}
+
+func (c01FailingReader) Read(p []byte) (int, error) { return 0, io.ErrUnexpectedEOF }
+
 func c01Check(c h.EdCase) h.Result {
 	r := h.NewR().Class("key:"+c.KeyCls, "sig:"+c.SigCls, "S:"+c.SCls, "mod:"+c.ModCls)
 	pk, msg, sig := []byte(c.PK), []byte(c.Msg), []byte(c.Sig)
@@ -82,6 +89,15 @@ func c01Check(c h.EdCase) h.Result {
 	r.Class(fmt.Sprintf("variant:%d", int(variant)))
 	in := func() string {
 		return fmt.Sprintf("ph=%v ctx=%x pk=%x msg=%x sig=%x", c.Ph, []byte(c.Ctx), pk, msg, sig)
+	}
+
+	// Verification is a function of its inputs only: what other calls did before
+	// (here: a hedged context signing that FAILS while reading its entropy, on
+	// every fourth case) must not influence the decision.
+	if len(sig) > 0 && sig[0]&3 == 0 {
+		r.Class("after-failed-sign")
+		_, _ = c01NoiseKey.Sign(c01FailingReader{}, bytes.Repeat([]byte{7}, 64), &ed25519.Options{Hash: crypto.SHA512, Context: "c01-noise", AddedRandomness: true})
+		_, _ = c01NoiseKey.Sign(c01FailingReader{}, []byte("noise"), &ed25519.Options{Context: "c01-noise", AddedRandomness: true})
 	}
 
 	// Documented panics of VerifyWithOptions: key length, pre-hash length,
